@@ -57,6 +57,9 @@ type hsResult struct {
 	clientErr                bool
 	virtual                  time.Duration
 	checkedAfter, flowsAfter bool
+	rtSeen                   [2]bool
+	rtAfterHs                [2]time.Duration
+	synTx                    [2]int
 }
 
 func runHandshakeScenario(t *testing.T, l *evlog, q *oracle, cfg simCfg, p hsParams) hsResult {
@@ -107,8 +110,28 @@ func runHandshakeScenario(t *testing.T, l *evlog, q *oracle, cfg simCfg, p hsPar
 					what = []string{"deliver", "deliver", "keep", "drop"}[p.r.intn(4)]
 				}
 				idx[x]++
+				if strings.HasPrefix(what, "wait") { // scripted delay in front of this packet
+					var ms int
+					fmt.Sscanf(what, "wait%d", &ms)
+					s.advance(time.Duration(ms) * time.Millisecond)
+					what = "deliver"
+				}
 				s.op(x, what)
 				moved = true
+			}
+			for x := 0; x < 2; x++ {
+				// the resend timeout right after the handshake, before any data-phase sample can be taken
+				if !res.rtSeen[x] && s.hsReturned(x) && s.hsErr[x] == nil && s.conn[x] != nil {
+					res.rtSeen[x] = true
+					res.rtAfterHs[x] = s.conn[x].VerifResendTimeout()
+					l.mu.Lock()
+					for _, e := range l.keep {
+						if strings.HasPrefix(e, fmt.Sprintf("TX %d 01", x)) {
+							res.synTx[x]++
+						}
+					}
+					l.mu.Unlock()
+				}
 			}
 			if s.hsReturned(0) && s.hsErr[0] == nil && p.sendData && !sent {
 				sent = true
@@ -229,6 +252,17 @@ func TestGenC10(t *testing.T) {
 			q.stat("completed_then_second_message", 1)
 			q.check(res.flowsAfter, "c10:completed-then-broken-by-late-handshake-packet:"+p.class, desc)
 		}
+		// C20 at the handshake: a side that transmitted its SYN more than once cannot tell which copy the answer
+		// belongs to, so the handshake gives it no round-trip sample: its resend timeout is still the default
+		for x := 0; x < 2; x++ {
+			if res.rtSeen[x] && res.synTx[x] >= 2 {
+				x := x
+				q.check(res.rtAfterHs[x] == time.Second, fmt.Sprintf("c20:handshake-sample-from-a-retransmitted-syn:side=%d", x), func() string {
+					return fmt.Sprintf("%s; side %d sent its SYN %d times and has resend timeout %v right after the handshake (default 1s)", desc(), x, res.synTx[x], res.rtAfterHs[x])
+				})
+				q.stat("handshakes_with_retransmitted_syn", 1)
+			}
+		}
 		// convergence: transport reliable for > 100 s, client active (data or keepalive)
 		if p.sendData || cfg.ping > 0 {
 			serverErr := res.hsRet[1] && !res.hsOK[1]
@@ -278,6 +312,20 @@ func TestGenC10(t *testing.T) {
 			pat := [2][]string{{opsAll[a%3], opsAll[a/3%3], opsAll[a/9]}, {opsAll[b%3], opsAll[b/3%3], opsAll[b/9]}}
 			cfg := mk(r.pick([]int{1, 3, 20}), (a+b)%2 == 0)
 			p := hsParams{class: "loss3x3", pattern: pat, sendData: true}
+			check(cfg, p, runHandshakeScenario(t, l, q, cfg, p), false)
+		}
+	}
+	// (a2) duplicated / retransmitted SYNs with the answer to them arriving late (so that a round-trip sample taken
+	// from them would be visible in the resend timeout)
+	for _, pat := range [][2][]string{
+		{{"keep", "wait700"}, {}},            // SYN duplicated, SYNACK 700 ms late
+		{{"keep", "deliver", "wait700"}, {}}, // the duplicate first, then the SYNACK late
+		{{"deliver", "wait700"}, {"drop"}},   // the server's echo lost: the client retransmits its SYN
+		{{"drop", "deliver", "wait600"}, {"wait500"}},
+	} {
+		for _, n := range []int{3, 20} {
+			cfg := mk(n, false)
+			p := hsParams{class: "late-answers", pattern: pat, sendData: true}
 			check(cfg, p, runHandshakeScenario(t, l, q, cfg, p), false)
 		}
 	}
